@@ -498,6 +498,8 @@ def main_c14():
         ("pospischil", [("Na", None), ("K", None), ("Km", None), ("CaL", None), ("CaT", None), ("Leak", None)], {}),
         ("shifted", [("Na", None), ("K", None), ("Km", None), ("CaT", None)], {"vt": -50.5, "Km_taumax": 1000.0, "CaT_vx": -7.5}),
         ("renamed", [("Na", "myNa"), ("CaT", "T2"), ("Km", "M")], {}),
+        # two instances of one class under different names side by side (each has its own gates and parameters)
+        ("two_instances", [("Na", None), ("Na", "Na2"), ("K", None), ("K", "K2"), ("HH", None), ("HH", "HHb")], {}),
         # compartments that share a voltage but not their parameters (every voltage three times, parameters cycling)
         ("heterogeneous", [("Na", None), ("K", None), ("Km", None), ("CaT", None), ("HH", None)],
          {"vt": [-63.0, -50.5, -57.0], "CaT_vx": [2.0, -7.5, 0.0], "Km_taumax": [4000.0, 1000.0, 2500.0]}),
